@@ -37,7 +37,8 @@ from translate import deflate_consts
 from vlib import core
 
 PROP = "C12"
-PROOF_MODULES = ["Abverif.Proofs.C12", "Abverif.Proofs.Lemmas.PmceData", "Abverif.Proofs.Lemmas.PmceRtSmall"] + \
+PROOF_MODULES = ["Abverif.Proofs.C12", "Abverif.Proofs.C12Handshake", "Abverif.Proofs.Lemmas.PmceData", "Abverif.Proofs.Lemmas.PmceRtSmall",
+                 "Abverif.Proofs.Lemmas.PmceRtSingle"] + \
     [f"Abverif.Proofs.Lemmas.PmceRt{k}{i}" for k in ("Offer", "Resp") for i in range(4)]
 W = Path(__file__).parent / "workers"
 _CONSTS = {}
@@ -76,7 +77,12 @@ MANIFEST_ENTRY = {
     "text": "Proved in Lean: offer and response render->header-parser->parse round trips on every lattice point; the "
             "server's response is permitted by the offer; for every offer/accept/response-accept passing the guards both "
             "directions are compatible (inflater window >= deflater window, inflater resets only if the deflater does) "
-            "and without overrides both ends hold identical parameters; the client fails the handshake on an unknown "
+            "and without overrides both ends hold identical parameters; the same at the level of the two WHOLE handshakes "
+            "(handshake_compatible: for every request header - any number of offers of any kind, unknown extensions in "
+            "between - every server policy and every client policy, a permessage-deflate response the server renders was "
+            "built for an offer the header really carried, is permitted by that offer, parses to exactly one extension entry "
+            "and leaves a client that completes on it compatible with the server in both directions: applyPolicy_deflate, "
+            "collectOffers_deflate_mem, response_header_single); the client fails the handshake on an unknown "
             "extension, a repeated compression extension, an unknown/duplicated/out-of-range/valueless parameter or a "
             "declining accept policy; compressed control frames and RSV1 on continuation frames are rejected; relative to "
             "the codec contract H1/H2 any message sequence (whole, fragmented, streamed, doNotCompress, context kept or "
